@@ -4,6 +4,7 @@
 package world
 
 import (
+	"bytes"
 	"crypto/ecdsa"
 	"crypto/sha256"
 	"encoding/hex"
@@ -135,6 +136,34 @@ type World struct {
 type Options struct {
 	// OrbiterGenesis, when not nil, replaces the orbiter section of the genesis (C17).
 	OrbiterGenesis json.RawMessage
+	// AuthorityConfig, when not empty, replaces the `authority:` value of the orbiter module in the
+	// application configuration (simapp/app.yaml) the application is built from (C10: the authority
+	// may be configured by address or by module name).
+	AuthorityConfig string
+}
+
+var appConfigMu sync.Mutex
+
+// withAuthorityConfig builds the application with the orbiter module's configured authority
+// replaced. The application reads the embedded YAML at construction time only.
+func withAuthorityConfig(cfg string, build func() (*simapp.SimApp, error)) (*simapp.SimApp, error) {
+	if cfg == "" {
+		return build()
+	}
+	appConfigMu.Lock()
+	defer appConfigMu.Unlock()
+	orig := simapp.AppConfigYAML
+	defer func() { simapp.AppConfigYAML = orig }()
+	line := "authority: " + Authority
+	if n := bytes.Count(orig, []byte(line)); n != 1 {
+		return nil, fmt.Errorf("harness: expected exactly one %q in simapp/app.yaml, found %d", line, n)
+	}
+	quoted, err := json.Marshal(cfg) // a JSON string is a valid YAML double-quoted scalar
+	if err != nil {
+		return nil, err
+	}
+	simapp.AppConfigYAML = bytes.Replace(orig, []byte(line), []byte("authority: "+string(quoted)), 1)
+	return build()
 }
 
 type emptyAppOptions struct{}
@@ -159,7 +188,9 @@ func pad32(b []byte) []byte {
 // New builds a fresh application instance with the harness genesis.
 func New(opts Options) (*World, error) {
 	setPrefixes()
-	app, err := simapp.NewSimApp(log.NewNopLogger(), dbm.NewMemDB(), nil, true, emptyAppOptions{}, baseapp.SetChainID(ChainID))
+	app, err := withAuthorityConfig(opts.AuthorityConfig, func() (*simapp.SimApp, error) {
+		return simapp.NewSimApp(log.NewNopLogger(), dbm.NewMemDB(), nil, true, emptyAppOptions{}, baseapp.SetChainID(ChainID))
+	})
 	if err != nil {
 		return nil, fmt.Errorf("NewSimApp: %w", err)
 	}
